@@ -280,6 +280,20 @@ for _sc in ("assign", "list", "append", "call", "emptysec", "sec", "titled", "ne
     U("parse_script_" + _sc, entry="h_script_" + _sc, cbmc=unw(20) + NOOOM, defs={"quick": []},
       label="bounded(one concrete token script: undeclared item '%s' followed by i = 5; nested activations run for real)" % _sc, props=["C12", "C06", "C02"], cost=10, **PARSEC)
 
+# ------------------------------------------------------------------ the by-name convenience layer
+WRAPC = dict(harness="harness/wrappers.c", defs={"quick": []})
+WSET = ["cfg_getopt", "cfg_opt_setnint", "cfg_opt_setnfloat", "cfg_opt_setnbool", "cfg_opt_setnstr", "cfg_opt_setcomment", "cfg_opt_rmnsec", "cfg_opt_rmtsec", "cfg_opt_setmulti",
+        "cfg_opt_set_print_func", "cfg_opt_print_pff_indent", "cfg_print_pff_indent", "cfg_getopt_secidx"]
+U("wrap_getters", entry="h_wrap_getters", func="cfg_getnint, cfg_getint, cfg_getnfloat, cfg_getfloat, cfg_getnbool, cfg_getbool, cfg_getnstr, cfg_getstr, cfg_getnptr, cfg_getptr, cfg_getnsec, cfg_gettsec, cfg_size, cfg_getcomment, cfg_opt_getstr",
+  cbmc=unw(6) + NOOOM, remove=["cfg_getopt"], carriers=["carriers/cfg_getopt.c"], label="proof (loop-free wrappers; the name resolver by contract; 10 literal option shapes, any index)",
+  props=["C09", "C01", "C11", "C15", "C02"], cost=10, **WRAPC)
+U("wrap_setters", entry="h_wrap_setters", func="cfg_setint, cfg_setnint, cfg_setfloat, cfg_setnfloat, cfg_setnbool, cfg_setbool, cfg_setstr, cfg_setnstr, cfg_setcomment, cfg_rmnsec, cfg_rmsec, cfg_rmtsec, cfg_setmulti, cfg_set_print_func",
+  cbmc=unw(6) + NOOOM, remove=WSET, carriers=["carriers/cfg_getopt.c", "carriers/wrapper_carriers.c"], label="proof (loop-free wrappers; resolvers and opt-level operations by contract)",
+  props=["C09", "C10", "C11", "C14", "C15", "C19", "C07", "C02"], cost=10, **WRAPC)
+U("wrap_print", entry="h_wrap_print", func="cfg_print, cfg_print_indent, cfg_opt_print, cfg_opt_print_indent", cbmc=unw(6) + NOOOM, remove=WSET, carriers=["carriers/cfg_getopt.c", "carriers/wrapper_carriers.c"],
+  label="proof (loop-free wrappers; the printers by contract)", props=["C19", "C05", "C02"], cost=5, **WRAPC)
+U("wrap_enum", entry="h_wrap_enum", func="cfg_numopts, cfg_num, cfg_getnopt, cfg_name", cbmc=unw(6) + NOOOM, label="bounded(<= 3 declared options)", props=["C16", "C01", "C02"], cost=5, **WRAPC)
+
 # ------------------------------------------------------------------ S1: contracts enforced by DFCC (frames)
 # (contract::cfg_addval is written in the same header, but its DFCC run did not finish in 300 s in the build phase; cfg_addval is decided by the S2 units addval_n*)
 for _f, _e, _props in (("cfg_set_error_function", "h_dfcc_errfunc", ["C06", "C16", "C02"]),
